@@ -8,6 +8,8 @@ ids=("$@"); [ ${#ids[@]} -eq 0 ] && ids=($(ls /verif/seeded))
 missed=0
 for id in "${ids[@]}"; do
   p=${id%-*}
+  # (a few seeded changes are by construction only visible to the check of another property: meta.json names it)
+  alt=$(/venv/bin/python -c "import json,sys; print(json.load(open('/verif/seeded/$id/meta.json')).get('run_check',''))" 2>/dev/null); [ -n "$alt" ] && p=$alt
   git -C $WT checkout -q -- . ; git -C $WT clean -fdq
   if ! git -C $WT apply /verif/seeded/$id/patch.diff 2>/dev/null; then echo "$id: PATCH DOES NOT APPLY"; missed=1; continue; fi
   out=$(cd /verif && VERIF_REPO=$WT ./check $p 2>&1)
